@@ -120,7 +120,7 @@ class C18(Prop):
     fixed_prefix = 0
     extractors = ["eval-loops"]
     quick_budget = 2500
-    thorough_budget = 80000
+    thorough_budget = 60000
     all_branches = ["heal:first", "heal:healed", "heal:degraded", "heal:degraded0", "heal:raise",
                     "swarm:success", "swarm:exhausted", "swarm:none", "swarm:raise", "swarm:collapse",
                     "swarm:steplimit", "tool:plain", "tool:final", "tool:noauto", "tool:answered", "tool:raise",
@@ -130,8 +130,6 @@ class C18(Prop):
         "or raise; they may assign the public attributes of the object that is running them (modelled: the attributes "
         "are part of the adversary-visible state), but they do not call back into the loop that is invoking them "
         "(re-entrant tools: search-only line retools)",
-        "callbacks do not assign confidence_decay while heal() runs (it is re-read at every attempt and only "
-        "influences the confidences reported, never a call)",
         "tool_calls returned by the provider is a finite sequence; mitochondria.export_tool_schemas() returns",
         "worker outputs are ASCII strings in the correspondence (str.upper is CPython's); md5 prefixes are taken as "
         "injective on the outputs explored",
@@ -199,7 +197,7 @@ class C18(Prop):
             bad = rng.choice("ggeLMbsntKUP")
             gs = {"never": bad, "atk": bad * k + "j", "alt": (bad + "j") * n if k % 2 else ("j" + bad) * n,
                   "echo": "e", "raise": "g" * k + "x", "long": rng.choice("LM") + "e",
-                  "reassign": "".join(rng.choice("ggrRj") for _ in range(n)) + "g",
+                  "reassign": "".join(rng.choice("ggrRjqQ") for _ in range(n)) + "g",
                   "random": "".join(rng.choice("gggjeLMxbsntKUP") for _ in range(n))}[fam]
         else:
             gs = rng.choice(["g", "g", "e", "ge", "L", "M", "gMe", "j", "H", "gH", "".join(rng.choice("gjeLMbsntKUP") for _ in range(n)),
@@ -214,7 +212,7 @@ class C18(Prop):
             if "H" in gs and rng.random() < 0.7:     # the mock healing generator heals on the error of validator call 1
                 fs = rng.choice(["IIA", "IIA", "IWA", "I", "IIIA"])
             if fam == "reassign":     # the generator itself assigns loop.max_retries (r: = 0, R: += 2) while heal runs
-                gs = "".join(rng.choice("ggrR") for _ in range(n)) + "g"
+                gs = "".join(rng.choice("ggrRqQ") for _ in range(n)) + "g"
         return gs or "-", fs or "-"
 
     def _gen_heal(self, rng):
@@ -557,6 +555,8 @@ class C18(Prop):
                 if item in "rR":          # the generator itself re-assigns the public limit of the loop that is calling it
                     loop.max_retries = box["mr"] = 0 if item == "r" else box["mr"] + 2
                     in_force.append(box["mr"])
+                if item in "qQ":          # … or the decay, which heal() re-reads at the top of every attempt
+                    loop.confidence_decay = 0.5 if item == "q" else 0.0
                 raw = prop._gen_raw(item, i, error_context)
                 rec["out"], rec["raw"] = "o", raw
                 return raw
